@@ -63,6 +63,12 @@ def walk(n):
         stack.extend(reversed(ks))
 
 
+LIBC_NO_GLOBAL_EFFECT = {"malloc", "calloc", "realloc", "free", "strlen", "strcmp", "strncmp", "strcasecmp", "strncasecmp", "memcpy",
+                         "memmove", "memset", "memcmp", "strcpy", "strncpy", "strcat", "strdup", "strchr", "strrchr", "fprintf", "printf",
+                         "snprintf", "sprintf", "fflush", "time", "__builtin_memcpy", "__builtin_memset", "__builtin_strcpy", "__builtin_strlen",
+                         "__builtin___memcpy_chk", "__builtin___strcpy_chk", "__builtin___snprintf_chk", "__builtin_object_size"}
+
+
 class Function:
     def __init__(self, unit, j):
         self.unit = unit
@@ -163,16 +169,28 @@ class Function:
                 if q.get("k") in ("for", "while", "do"):
                     inloop = True
                 q = self.parent.get(q["i"])
-            if inloop:
-                continue
             uses = [x["i"] for x in walk(self.body) if x.get("k") == "ref" and x.get("d") == d]
+            if inloop:
+                # inside a loop the flag is set afresh in every iteration that reads it: the write dominates every read (so the
+                # read follows the write of the same iteration - a path from the loop head to a read that avoided the write
+                # would also exist on the first iteration)
+                wid = node["i"]
+                if self.cfg is None or wid not in self.cfg.pos:
+                    tgt = [y["i"] for y in walk(node) if y["i"] in self.cfg.pos] if self.cfg is not None else []
+                    if not tgt:
+                        continue
+                    wid = max(tgt)
+                own = {y["i"] for y in walk(node)}
+                if not all(u_ in own or (u_ in self.cfg.pos and self.cfg.node_dominates(wid, u_)) for u_ in uses):
+                    continue
             last = max(uses) if uses else node["i"]
             start = max(y["i"] for y in walk(node))
             rd_vars = {y["d"] for y in walk(c) if y.get("k") == "ref" and y.get("rk") in ("local", "param")}
             if rd_vars & taken:
                 continue
-            reads_mem = any(y.get("k") in ("member", "index") or (y.get("k") == "un" and y.get("op") == "*") or
-                            (y.get("k") == "ref" and y.get("rk") == "global") for y in walk(c))
+            reads_ptr = any(y.get("k") in ("member", "index") or (y.get("k") == "un" and y.get("op") == "*") for y in walk(c))
+            reads_glob = any(y.get("k") == "ref" and y.get("rk") == "global" for y in walk(c))
+            reads_mem = reads_ptr or reads_glob
             ok = True
             for y in walk(self.body):
                 if not (start < y["i"] <= last):
@@ -189,8 +207,13 @@ class Function:
                         ok = False
                 if k == "call" and reads_mem:
                     cal = y.get("callee")
-                    if not re.match(r"libast_(fatal_error|print_warning|print_error|dprintf)$", cal or "?"):
-                        ok = False
+                    if re.match(r"libast_(fatal_error|print_warning|print_error|dprintf)$", cal or "?"):
+                        continue
+                    # a libc routine that is not handed the address of anything the condition reads cannot change a global of
+                    # this library (malloc between `record = level >= N` and `if (record)`)
+                    if not reads_ptr and (cal or "?") in LIBC_NO_GLOBAL_EFFECT:
+                        continue
+                    ok = False
             if ok:
                 out[d] = c
         return out
@@ -224,9 +247,37 @@ def _single_return_expr(fj):
     if not body or body.get("k") != "block":
         return None
     stmts = [c for c in body.get("ch", []) if c is not None]
-    if len(stmts) != 1 or stmts[0].get("k") != "return" or stmts[0].get("val") is None:
+
+    def ret_of(st_):
+        """E if the statement is `return E;` or `{ return E; }`"""
+        while st_ is not None and st_.get("k") == "block":
+            inner = [c for c in st_.get("ch", []) if c is not None]
+            if len(inner) != 1:
+                return None
+            st_ = inner[0]
+        if st_ is not None and st_.get("k") == "return" and st_.get("val") is not None:
+            return st_["val"]
         return None
-    e = stmts[0]["val"]
+    e = None
+    if len(stmts) == 1:
+        e = ret_of(stmts[0])
+    elif len(stmts) == 2 and stmts[0].get("k") == "if" and ret_of(stmts[0].get("then")) is not None and stmts[0].get("else") is None \
+            and ret_of(stmts[1]) is not None:
+        # a predicate written with an early return:  if (C) return A;  return B;   ==   C ? A : B
+        a_, b_ = ret_of(stmts[0]["then"]), ret_of(stmts[1])
+        e = {"k": "cond", "i": -1, "ch": [stmts[0]["cond"], a_, b_]}
+        for key in ("t", "tc", "tw", "ts", "tp", "l", "f", "c"):
+            if key in a_:
+                e[key] = a_[key]
+    elif len(stmts) == 1 and stmts[0].get("k") == "if" and stmts[0].get("else") is not None and ret_of(stmts[0]["then"]) is not None \
+            and ret_of(stmts[0]["else"]) is not None:
+        a_, b_ = ret_of(stmts[0]["then"]), ret_of(stmts[0]["else"])
+        e = {"k": "cond", "i": -1, "ch": [stmts[0]["cond"], a_, b_]}
+        for key in ("t", "tc", "tw", "ts", "tp", "l", "f", "c"):
+            if key in a_:
+                e[key] = a_[key]
+    if e is None:
+        return None
     for x in walk(e):
         if x.get("k") in ("assign", "call", "stmtexpr") or (x.get("k") == "un" and x.get("op") in ("++", "--")):
             return None
